@@ -171,6 +171,7 @@ HARNESSES = {
     "k_get_modifiers": dict(confirm=confirm_get_modifiers, bound="all 256 modifier bytes"),
     "k_english_mask": dict(confirm=confirm_english_mask, bound="both flags symbolic"),
     "k_rank_cmp_antisym": dict(confirm=confirm_playback("k_rank_cmp_antisym"), bound="two ranks, all variants x all u8 payloads"),
+    "k_rank_cmp_ignores_text": dict(confirm=confirm_playback("k_rank_cmp_ignores_text"), bound="pairs of same-class ranks with different texts, all u8 numbers"),
     "k_rank_sort_stable_4": dict(confirm=confirm_playback("k_rank_sort_stable_4"), bound="4 ranks from the producible domain, real slice::sort"),
     "k_rank_sort_unstable_4": dict(confirm=confirm_playback("k_rank_sort_unstable_4"), bound="4 ranks, real slice::sort_unstable"),
     "k_rank_sort_stable_6": dict(confirm=confirm_playback("k_rank_sort_stable_6"), bound="6 ranks from the producible domain, real slice::sort"),
